@@ -95,7 +95,22 @@ def replay_equiv(case, cx):
         # the solver's instance first, then generic instances of the same configuration
         rng = random.Random(4242)
         tried = []
-        for v in [vals] + [_concrete_vals(cfg, rng) for _ in range(4)]:
+        need = cfg["pop"] * cfg["kcals_daily"] * 30 / 1e9
+
+        def scaled(v, k):
+            # the same generic instance with every supply multiplied by k: scarce instances (a few percent fed) and abundant ones (well above 100 percent fed)
+            # exercise different constraints (the absolute intake caps only bind above 100 percent)
+            out = {}
+            for key, x in v.items():
+                if key == "area":
+                    out[key] = x
+                elif key == "pins":
+                    out[key] = {kk: [y * k for y in vv] for kk, vv in x.items()}
+                else:
+                    out[key] = [y * k for y in x] if isinstance(x, list) else x * k
+            return out
+        generic = [_concrete_vals(cfg, rng) for _ in range(3)]
+        for v in [vals] + generic + [scaled(generic[0], need / 20.0), scaled(generic[1], need / 4.0), scaled(generic[2], need / 4.0)]:
             try:
                 pf, X = Q.run_real(cfg, v, cx["growth"])
             except AssertionError as e:
